@@ -21,8 +21,15 @@ def client_op(kind, variant, who):
         if who == "p2":
             op["key"] = "k2"
         return op
-    if variant == "subdoc":
+    if variant == "subabs" and kind == "set":
+        # the document does not exist at first: a plain write creates it while sub-document writers are at work
+        return {"op": "Add", "coll": COLL, "key": KEY, "body": "J1", "h": "h2" if who == "p2" else ""}
+    if variant in ("subdoc", "subabs"):
         path = {"p1": "a", "p2": "n", "p3": "v"}[who]
+        if variant == "subabs" and kind == "incr":
+            # (SubdocInsert refuses a missing document on the strength of its read: where that refusal is linearised is
+            # not what the replayed history records, so the absent-document variant uses writes that never refuse)
+            kind = "update"
         if kind == "update":
             return {"op": "WriteSubDoc", "coll": COLL, "key": KEY, "path": path, "val": "s2", "casc": "zero"}
         if kind == "casw":
@@ -60,6 +67,8 @@ def to_case(name, scen, prog, sched, variant, mode="mem"):
     setup = [{"op": "Incr", "coll": COLL, "key": KEY, "amt": 1, "def": 0}]
     if variant == "subdoc":
         setup = [{"op": "Set", "coll": COLL, "key": KEY, "body": "J1"}]
+    if variant == "subabs":
+        setup = []
     if variant == "kvadd":
         # the key starts as a tombstone: Add (and Incr) re-create it
         setup += [{"op": "Delete", "coll": COLL, "key": KEY}]
@@ -195,11 +204,13 @@ def run(tier, seed, vh, only_paths=None, mode=None):
                 if scen in ("join", "order"):
                     variants = variants + ["kv2"]
                 if scen in ("race", "race3"):
-                    variants = ["kv", "subdoc", "xattr", "xtomb", "kvopt", "kvadd"]
+                    variants = ["kv", "subdoc", "subabs", "xattr", "xtomb", "kvopt", "kvadd"]
                 for v in variants:
                     if v == "kvopt" and not set(sc["prog"].values()) & {"set", "incr"}:
                         continue
                     if v == "kvadd" and "set" not in sc["prog"].values():
+                        continue
+                    if v == "subabs" and not (set(sc["prog"].values()) <= {"update", "casw", "incr", "set"} and set(sc["prog"].values()) & {"update", "incr"}):
                         continue
                     if v == "subdoc" and not set(sc["prog"].values()) <= {"update", "casw", "incr"}:
                         continue
